@@ -26,7 +26,7 @@ use crate::stream::VecByteStream;
 use crate::stream::aggregate_unlimited;
 
 use std::mem;
-use std::net::{IpAddr, SocketAddr};
+use std::net::{IpAddr, Ipv6Addr, SocketAddr};
 use std::ops::Not;
 use std::sync::Arc;
 
@@ -102,7 +102,12 @@ fn extract_host(req: &Request) -> S3Result<Option<String>> {
 }
 
 fn is_socket_addr_or_ip_addr(host: &str) -> bool {
-    host.parse::<SocketAddr>().is_ok() || host.parse::<IpAddr>().is_ok()
+    // an IPv6 literal in a Host header is bracketed even when no port follows
+    let bracketed_ipv6 = || {
+        let inner = host.strip_prefix('[').and_then(|h| h.strip_suffix(']'));
+        inner.is_some_and(|h| h.parse::<Ipv6Addr>().is_ok())
+    };
+    host.parse::<SocketAddr>().is_ok() || host.parse::<IpAddr>().is_ok() || bracketed_ipv6()
 }
 
 fn convert_parse_s3_path_error(err: &ParseS3PathError) -> S3Error {
